@@ -100,6 +100,12 @@ CHECKS = {
          'Dealing-record chunking is not compared; partial stud histories cut inside a deal raise KeyError from the opener lookup (counted as error report). Two muck-at-showdown defects of C07 are reached through the loader and reported as known findings.',
          'DESIGN.md section 4 C16'),
 
+ 'C17': ('model_checking',
+         'explicit-state exploration of the real State in path mode; at every history the real to_acpc_protocol (every viewer seat) and to_pluribus_protocol are compared with an independent renderer fed the played operation log, and every terminal line is parsed back by the real from_acpc_protocol and replayed (loop closed)',
+         'No-limit (every raise size) and fixed-limit hold\'em, equal stacks, 2-3 players full depth and 4-6 players within k deviations, automatic and manual showdown (mucked hands), compressed / uncompressed / card-by-card dealing records: at every history whose next step is a player decision or that is terminal, the message list for every viewer seat (one S-> state before each betting action and at the end, one <-C echo after the viewer\'s own actions, betting string with f / c / r or r<total committed by the raiser>, one / per street, the viewer\'s hole cards plus tabled hands, boards) and the Pluribus line (all seats\' cards, payoffs, players) equal the reference; each terminal line parsed back with the same game and stack yields one history that replays to the same betting actions and stacks and renders to the same line.',
+         'Histories cut inside dealing or showdown are not judged; hands ended by an explicit muck are not parsed back (the protocol has no muck action). Blinds only (no antes), as in the protocol.',
+         'DESIGN.md section 4 C17'),
+
 }
 
 def main():
